@@ -142,12 +142,22 @@ try:
         dsts = []
         for t in range(ntargets):
             d = os.path.join(work, f"dst{t}")
-            prior = rnd.choice(["absent", "empty", "other-tree", "kinds-swapped"])
+            prior = rnd.choice(["absent", "empty", "other-tree", "kinds-swapped", "links-in-the-way"])
             if prior == "empty":
                 os.makedirs(d)
             elif prior == "other-tree":
                 gen_tree(random.Random(rnd.random()), d, outside=outside)
                 make_writable(d)
+            elif prior == "links-in-the-way":
+                # where the source has a directory / file the target has a symlink to a directory / file OUTSIDE the target tree
+                os.makedirs(d)
+                side = os.path.join(work, f"side{t}")
+                os.makedirs(os.path.join(side, "adir"))
+                open(os.path.join(side, "afile"), "w").write("outside file")
+                for name, (kind, *_r) in snapshot(src).items():
+                    if os.sep in name:
+                        continue
+                    os.symlink(os.path.join(side, "adir" if kind == "dir" else "afile"), os.path.join(d, name))
             elif prior == "kinds-swapped":
                 os.makedirs(d)
                 for name, (kind, *_r) in snapshot(src).items():
@@ -181,6 +191,10 @@ try:
             continue
         os.chdir(start_cwd)
         n += 1
+        for t in range(ntargets):
+            side = os.path.join(work, f"side{t}")
+            if os.path.isdir(side) and (sorted(os.listdir(side)) != ["adir", "afile"] or os.listdir(os.path.join(side, "adir")) or open(os.path.join(side, "afile")).read() != "outside file"):
+                bad.append(f"round {r}: a directory outside target {t} (reached through a symlink that stood in the way) was modified")
         for t, d in enumerate(dsts):
             for b in compare(src, d, delete, before[t])[:3]:
                 bad.append(f"round {r} (cwd={'src/' + os.path.relpath(cwd, src) if cwd.startswith(src) else 'outside'}, delete={delete}) target {t}: {b}")
